@@ -1,6 +1,7 @@
 """Driver for ONE real connection against a scripted counterparty: concretises the
 relative events of spec/Session1.tla against the live object (mirror of Resolve), applies
 them, and records [ev, pre, out, post] steps for spec/SessionEval.tla."""
+import os
 import sys
 
 from .net import (Livelock, watchdog, Endpoint, FIXMessage, FMsg, FTag, PeerCodec, VLoop, abs_frames, install_clock,
@@ -100,18 +101,29 @@ def out_of(ep, exc="none"):
 class Session:
     """One recording endpoint + its scripted peer."""
 
-    def __init__(self, declined=(), hb=30, nin=1, nout=1, cls=RecConn, sender="A", target="B", scale=1, phase=0):
+    def __init__(self, declined=(), hb=30, nin=1, nout=1, cls=RecConn, sender="A", target="B", scale=1, phase=0, filej=False):
         self.loop = VLoop()
         install_clock(self.loop)
         self.scale = scale          # recorded times are in units of 1/scale second
         self.phase = None           # wake-up phase of the heartbeat task (set when the tasks start)
         if phase:
             self.loop.advance(phase / scale)
-        j = Journaler()
+        self.tmpdir = None
+        if filej:
+            # a journal file; the projection reads it through a second connection, i.e. what is stored durably
+            import tempfile
+            from . import tlc as _t
+            os.makedirs(os.path.join(_t.VERIF, ".work"), exist_ok=True)
+            self.tmpdir = tempfile.mkdtemp(prefix="sessj_", dir=os.path.join(_t.VERIF, ".work"))
+            j = Journaler(os.path.join(self.tmpdir, "j.db"))
+        else:
+            j = Journaler()
         if (nin, nout) != (1, 1):
             s = j.create_or_load(target, sender)
             j.set_seq_num(s, next_num_out=nout, next_num_in=nin)
         self.ep = Endpoint(self.loop, sender, target, journaler=j, cls=cls, hb=hb)
+        if self.tmpdir:
+            self.ep.jpath = os.path.join(self.tmpdir, "j.db")
         dec = set(declined)
         if dec:
             self.ep.conn.replay_filter = lambda m: ("11=" + m.get(FTag.ClOrdID, "")) not in dec
@@ -183,6 +195,9 @@ class Session:
             self.loop.shutdown()
         except Exception:
             pass
+        if self.tmpdir:
+            import shutil
+            shutil.rmtree(self.tmpdir, ignore_errors=True)
 
 
 def run_trace(spec):
@@ -190,7 +205,7 @@ def run_trace(spec):
     from .net import RecClient, RecServer
     cls = {"server": RecServer, "client": RecClient}.get(spec.get("cls"), RecConn)     # the subclasses fix the role at construction
     s = Session(declined=spec.get("declined", ()), hb=spec.get("hb", 30), nin=spec.get("nin", 1), nout=spec.get("nout", 1),
-                scale=spec.get("scale", 1), phase=spec.get("phase", 0), cls=cls)
+                scale=spec.get("scale", 1), phase=spec.get("phase", 0), cls=cls, filej=bool(spec.get("filej")))
     err = None
     try:
         for rev in spec["revs"]:
